@@ -48,6 +48,7 @@ type Frame struct {
 	fn          *ssa.Function
 	c           *Contract
 	top         bool
+	anchors     bool                 // a callee executed in place by name ("option inline-callees"): its calls are anchors of the top contract's cuts
 	sliceHead   map[*ssa.Phi]*SliceV // option loop-slice-windows: the value of each re-sliced loop variable at loop entry
 	depth       int
 	ipdom       map[*ssa.BasicBlock]*ssa.BasicBlock
